@@ -853,6 +853,30 @@ func (p *sqlParser) primary() (*SQLExpr, error) {
 	case isIdent(t):
 		name := strings.ToLower(t)
 		if p.peek() == "(" {
+			// scalar two-or-more-argument extremum functions (integers): SQLite MIN/MAX (NULL if any argument
+			// is NULL), Postgres LEAST/GREATEST (NULL arguments ignored)
+			up := strings.ToUpper(t)
+			if up == "MIN" || up == "MAX" || up == "LEAST" || up == "GREATEST" {
+				p.accept("(")
+				var args []*SQLExpr
+				for {
+					a, err := p.expr()
+					if err != nil {
+						return nil, err
+					}
+					args = append(args, a)
+					if !p.accept(",") {
+						break
+					}
+				}
+				if err := p.expect(")"); err != nil {
+					return nil, err
+				}
+				if len(args) < 2 {
+					return nil, fmt.Errorf("aggregate %s is outside the supported SQL subset", t)
+				}
+				return &SQLExpr{op: "extremum", name: up, args: args}, nil
+			}
 			return nil, fmt.Errorf("unsupported SQL function %s", t)
 		}
 		if p.accept(".") {
